@@ -142,8 +142,13 @@ pub struct TRd {
 
 impl TRd {
     pub fn new(tr: &mut Tr, cfg: &RCfg, bytes: &[u8]) -> TRd {
+        Self::new_at(tr, cfg, bytes, 0)
+    }
+
+    /// a counting wrapper created around a reader that has already consumed `start' bits
+    pub fn new_at(tr: &mut Tr, cfg: &RCfg, bytes: &[u8], start: u64) -> TRd {
         let id = tr.new_id();
-        let mut r = make_reader(cfg, bytes);
+        let mut r = make_reader_at(cfg, bytes, start);
         let seekable = r.bit_pos().is_some();
         tr.emit(
             Ev::new("new_reader")
@@ -156,6 +161,7 @@ impl TRd {
                 .b("strict", cfg.strict())
                 .i("peek", cfg.peek_max() as i64)
                 .b("has_counter", r.counter().is_some())
+                .i("start", start as i64)
                 .bytes("bytes", bytes),
         );
         let ends_with_one = bytes.last().map(|b| if cfg.le { b & 0x80 != 0 } else { b & 1 != 0 }).unwrap_or(false);
@@ -307,7 +313,7 @@ impl TRd {
 
     /// reader-side copy (optimised or default, depending on the build)
     pub fn copy_to(&mut self, tr: &mut Tr, w: &mut TW, n: u64) -> Out<()> {
-        let r = self.r.copy_to(&mut *w.w, n);
+        let (r, side) = self.r.copy_to(&mut *w.w, n);
         if !r.is_ok() {
             self.dead = true;
             w.dead = true;
@@ -320,6 +326,7 @@ impl TRd {
             .i("ow", w.id)
             .i("n", n as i64)
             .res(&r)
+            .s("side", side)
             .i("pos", p)
             .bytes("nb", &nb);
         if let Some(c) = self.r.counter() {
@@ -334,7 +341,7 @@ impl TRd {
 
     /// writer-side copy
     pub fn copy_from(&mut self, tr: &mut Tr, w: &mut TW, n: u64) -> Out<()> {
-        let r = w.w.copy_from(&mut *self.r, n);
+        let (r, side) = w.w.copy_from(&mut *self.r, n);
         if !r.is_ok() {
             self.dead = true;
             w.dead = true;
@@ -347,6 +354,7 @@ impl TRd {
             .i("ow", w.id)
             .i("n", n as i64)
             .res(&r)
+            .s("side", side)
             .i("pos", p)
             .bytes("nb", &nb);
         if let Some(c) = self.r.counter() {
